@@ -209,6 +209,11 @@ class _LegacyRecordBatchPy(LegacyRecordBase, LegacyRecordBatchProtocol):
         buffer_len = len(self._buffer)
         while pos < buffer_len:
             header = self._read_header(pos)
+            if header[1] < 0:
+                # a negative size would make the walk stall or go backwards
+                raise CorruptRecordException(
+                    f"Negative message size {header[1]} in compressed message"
+                )
             msgs.append((header, pos))
             pos += self.LOG_OVERHEAD + header[1]  # length
         return msgs
